@@ -10,7 +10,8 @@ for item in "$@"; do
   name="${item%%:*}"; ids="${item#*:}"; [ "$ids" = "$item" ] && ids="${name%%_*}"; ids="${ids//,/ }"
   out=/verif/seeded/$name/check_output.txt
   patch=/verif/seeded/$name/patch.diff; [ -f /verif/seeded/$name/patch_adapted.diff ] && patch=/verif/seeded/$name/patch_adapted.diff
-  git -C "$FV_SCRATCH/repo" checkout -q -- . ; git -C "$FV_SCRATCH/repo" clean -fdq
+  # (reset, not checkout: `git apply --3way` also updates the index)
+  git -C "$FV_SCRATCH/repo" reset -q --hard HEAD; git -C "$FV_SCRATCH/repo" clean -fdq
   : > "$out"
   echo "patch: $(basename $patch) applied to /repo HEAD $(git -C /repo log -1 --format=%h) in a scratch worktree" >> "$out"
   if ! git -C "$FV_SCRATCH/repo" apply --3way "$patch" 2>>"$out" && ! git -C "$FV_SCRATCH/repo" apply "$patch" 2>>"$out"; then
